@@ -1179,6 +1179,14 @@ example : (rxRun {} [.open_ 1 none, .data 1 3000 200 true false, .hread 1 1000, 
     (fun c => (c.inflow.avail + c.inflow.unsent, held c)) = some (1053576, 0) := by decide
 
 open H2Rx in
+/-- ... and by a history in which the handler gives up on the upload: 3000 bytes buffered, `Body.Close()`, then a padded
+DATA frame (1000 + 100 + 1 octets) and an unpadded one with END_STREAM, the handler's return: everything the client
+sent — 5101 octets — is back in the connection window (or batched) at the end, nothing is held -/
+example : (rxRun {} [.open_ 1 none, .data 1 3000 0 false false, .hclose 1, .data 1 1000 100 true false, .hread 1 10,
+      .data 1 1000 0 false true, .hret 1]).map
+    (fun c => (c.inflow.avail + c.inflow.unsent, held c)) = some (1048576, 0) := by decide
+
+open H2Rx in
 /-- the fresh connection satisfies the premises of `rx_no_credit_lost` -/
 theorem rx_init : RxInv ({} : RConn) ∧ HasBodies ({} : RConn) := by
   refine ⟨⟨⟨by decide, by decide, by decide, by decide⟩, by unfold BUniq; simp, by decide⟩, ?_⟩
